@@ -158,6 +158,8 @@ class Engine:
         self.fi = repo.funcs[key]
         self.contract: Contract = REGISTRY[key]
         self.B = builtins_mod
+        from . import tensors as _T, distmodel as _D
+        self.T, self.D = _T, _D
         self.facts: list = []
         self.obligations: list[Obligation] = []
         self.exits: list[Exit] = []
@@ -380,7 +382,7 @@ class Engine:
         fi = self.fi
         st = State()
         st.nxt = z3.Int('alloc0')
-        self.facts.append(st.nxt > 0)
+        self.facts.append(st.nxt > 1000000)      # enum members live at fixed small addresses
         frame = Frame(fi=fi, module=fi.module, self_cls=c.self_cls or fi.cls, contract=c)
         self.frames.append(frame)
         # parameters
@@ -416,7 +418,8 @@ class Engine:
             self.assume_wellformed(st, v)
         self.param_env = dict(st.env)
         self.old_env = dict(st.env)
-        self.old_heap = st.heap   # aliasing on purpose until the first write; snapshot below
+        self.old_heap = {}
+        self.init_state = st.copy()
         self.old_heap = dict(st.heap)
         self.init_state = st.copy()
         # lets
@@ -425,6 +428,22 @@ class Engine:
         for cl in c.requires:
             r = self.eval_spec(cl.node, st, st)
             self.facts.append(self.truth(r))
+        self.spec_mode += 1
+        # tensors of declared rank: their (immutable) shape list is taken in canonical representation;
+        # only len and the elements in range are observable, so this loses no behaviour
+        for expr, rank_ in c.ranks.items():
+            node = ast.parse(expr, mode='eval').body
+            obj = self.eval_spec(node, st, st)
+            sh = self.read_field(st, obj, 'shape', cls='Tensor')
+            lo = ListOps(sh.kind)
+            canon = lo.from_items([lo.at(sh.term, z3.IntVal(i)) for i in range(rank_)])
+            self.facts.append(z3.Implies(obj.term != 0, sh.term == canon))
+            key, kind = self.field_decl('Tensor', 'shape')
+            st.heap[key] = z3.Store(self.heap_array(st, key, kind), obj.term, canon)
+            self.assumptions.add('shape lists of input tensors of declared rank are in canonical representation (unobservable difference)')
+        self.spec_mode -= 1
+        self.old_heap = dict(st.heap)
+        self.init_state = st.copy()
         for cl in c.hints:
             r = self.truth(self.eval_spec(cl.node, st, st))
             self.oblige(st, r, f'hint:{cl.label}', kind='hint', text=cl.text, props=cl.props)
@@ -623,6 +642,12 @@ class Engine:
         self.param_env = {n: fresh(k, n) for n, k in lem.vars.items()}
         self.init_state = st.copy()
         self.old_heap = {}
+        if lem.theory:
+            from . import theory as TH
+            groups, _ = TH.groups()
+            for gname in lem.theory:
+                self.facts += groups[gname]
+                self.assumptions.add(f'matrix theory axioms: {gname}')
         for h in lem.hyps:
             node = ast.parse(h, mode='eval').body
             self.facts.append(self.truth(self.eval_spec(node, st, st)))
@@ -1251,6 +1276,12 @@ class Engine:
                 return meta_value(ClassRef(attr))
             return meta_value(ModuleRef(dotted))
         if isinstance(m, ClassRef):
+            ci = self.repo.classes.get(m.name)
+            if ci is not None and 'Enum' in ci.bases:
+                for i, stt in enumerate(x for x in ci.node.body if isinstance(x, ast.Assign)):
+                    if stt.targets[0].id == attr:
+                        addr = 900000 + 1000 * sorted(self.repo.classes).index(m.name) + i + 1
+                        return V(KRef(m.name), z3.IntVal(addr))
             b = self.B.lookup(f'{m.name}.{attr}')
             if b is not None:
                 return b
@@ -1277,6 +1308,10 @@ class Engine:
             b = self.B.lookup_method(self, st, base, attr)
             if b is not None:
                 return b
+            if cls == 'Tensor':
+                r = self.T.tensor_attr(self, st, base, attr)
+                if r is not None:
+                    return r
             return self.read_field(st, base, attr)
         b = self.B.lookup_method(self, st, base, attr)
         if b is not None:
@@ -1419,6 +1454,8 @@ class Engine:
 
     def expr_Subscript(self, e, st):
         base = self.eval(e.value, st)
+        if self.T.is_tensor(base):
+            return self.T.tensor_getitem(self, st, base, e)
         if isinstance(e.slice, ast.Slice):
             lo = self.eval(e.slice.lower, st) if e.slice.lower is not None else None
             hi = self.eval(e.slice.upper, st) if e.slice.upper is not None else None
@@ -1600,6 +1637,8 @@ class Engine:
         r = self.B.binop(self, st, op, a, b)
         if r is not None:
             return r
+        if self.T.is_tensor(a) or self.T.is_tensor(b):
+            return self.T.tensor_binop(self, st, op, a, b)
         if isinstance(a.kind, KList) and isinstance(b.kind, KList) and op == 'Add':
             if a.meta == 'empty':
                 a = coerce(a, b.kind)
@@ -1943,6 +1982,20 @@ class Engine:
             return self.construct(m.name, args, kwargs, st)
         # unknown callable: uninterpreted, pure, total, deterministic
         return self.call_unknown(fn, args, kwargs, st)
+
+    def ghost_get(self, st, name, kind):
+        arr = self.heap_array(st, '$ghost:' + name, kind)
+        return V(kind, z3.Select(arr, 0))
+
+    def ghost_set(self, st, name, val: V):
+        arr = self.heap_array(st, '$ghost:' + name, val.kind)
+        st.heap['$ghost:' + name] = z3.Store(arr, 0, val.term)
+
+    def ghost_const(self, name, sort):
+        key = ('gconst', name)
+        if key not in self.uf_cache:
+            self.uf_cache[key] = z3.Const('ghost:' + name, sort)
+        return self.uf_cache[key]
 
     def ghost_int(self, st, name):
         arr = self.heap_array(st, '$ghost:' + name, KInt)
